@@ -216,3 +216,57 @@ theorem fold_lb_other (q : List (Session K)) :
     rw [List.getElem?_set_ne (hne h List.mem_cons_self)]
 
 end Acn.Sorted
+
+namespace Acn.Sorted
+open Acn
+variable {K : Type} [Field K] [LinearOrder K] [IsStrictOrderedRing K]
+
+/-- the schedule on which session `s` of `pre ++ s :: post` is served: sessions of `pre` already at
+    their FINAL values, everything else as in the incoming schedule -/
+theorem greedyLoop_sequential (feas : List K → Bool) (fuel : Nat) (eps : K) (infra : Infra K) (period : K)
+    (s : Session K) (post : List (Session K)) :
+    ∀ (pre : List (Session K)) (sch final : List K),
+      ((pre ++ s :: post).map (·.idx)).Nodup →
+      (∀ t ∈ pre ++ s :: post, t.idx < sch.length) →
+      greedyLoop feas fuel eps infra period (pre ++ s :: post) sch = .ok final →
+      ∃ cur r, greedyRate feas fuel eps infra period cur s = .ok r ∧ final[s.idx]? = some r ∧
+        cur.length = sch.length ∧ (∀ t ∈ pre, cur[t.idx]? = final[t.idx]?) ∧
+        (∀ j, (∀ t ∈ pre, t.idx ≠ j) → cur[j]? = sch[j]?) := by
+  intro pre
+  induction pre with
+  | nil =>
+    intro sch final hnd hidx h
+    simp only [List.nil_append] at hnd hidx h
+    cases hgr : greedyRate feas fuel eps infra period sch s with
+    | error e => simp [greedyLoop, hgr] at h
+    | ok r =>
+      simp only [greedyLoop, hgr] at h
+      rw [List.map_cons, List.nodup_cons] at hnd
+      obtain ⟨_, hout, _⟩ := greedyLoop_values feas fuel eps infra period post _ final hnd.2 h
+      refine ⟨sch, r, hgr, ?_, rfl, fun t ht => absurd ht (by simp), fun _ _ => rfl⟩
+      rw [hout s.idx (fun t ht heq => hnd.1 (List.mem_map.mpr ⟨t, ht, heq⟩))]
+      simp [hidx s List.mem_cons_self]
+  | cons hd pre' ih =>
+    intro sch final hnd hidx h
+    simp only [List.cons_append] at hnd hidx h
+    cases hgr : greedyRate feas fuel eps infra period sch hd with
+    | error e => simp [greedyLoop, hgr] at h
+    | ok rh =>
+      simp only [greedyLoop, hgr] at h
+      rw [List.map_cons, List.nodup_cons] at hnd
+      have hidx' : ∀ t ∈ pre' ++ s :: post, t.idx < (sch.set hd.idx rh).length := by
+        intro t ht; rw [List.length_set]; exact hidx t (List.mem_cons_of_mem _ ht)
+      obtain ⟨cur, r, h1, h2, h3, h4, h5⟩ := ih (sch.set hd.idx rh) final hnd.2 hidx' h
+      obtain ⟨_, hout, _⟩ := greedyLoop_values feas fuel eps infra period _ _ final hnd.2 h
+      have hhd : ∀ t ∈ pre' ++ s :: post, t.idx ≠ hd.idx :=
+        fun t ht heq => hnd.1 (List.mem_map.mpr ⟨t, ht, heq⟩)
+      refine ⟨cur, r, h1, h2, by rw [h3, List.length_set], ?_, ?_⟩
+      · intro t ht
+        rcases List.mem_cons.mp ht with rfl | ht
+        · rw [h5 t.idx (fun u hu => hhd u (List.mem_append_left _ hu)), hout t.idx hhd]
+        · exact h4 t ht
+      · intro j hj
+        rw [h5 j (fun t ht => hj t (List.mem_cons_of_mem _ ht))]
+        exact List.getElem?_set_ne (hj hd List.mem_cons_self)
+
+end Acn.Sorted
